@@ -252,6 +252,8 @@ def mk_positive(name, prop, LD, N, elo, ehi):
             trunc = False
             for j in range(LD):
                 trunc = X.Or(trunc, X.And(X.eq(s10 - e, j), nd > j, m * 10 ** j <= D, D - m * 10 ** j < 10 ** j))
+            for k in range(1, N):   # fixed layout with trailing zeros: all digits and k of the zeros, exact
+                trunc = X.Or(trunc, X.And(X.eq(e - s10, k), X.eq(m, D * 10 ** k)))
             return [("well-formed-decimal", X.Implies(ok, valid)), ("no-sign-written", X.Implies(ok, X.Not(neg))),
                     ("truncation-of-the-digits", X.Implies(ok, trunc))]
         cl = [("status-is-success-or-value_too_large", X.Or(ok, X.eq(ec, EVALUE_TOO_LARGE))),
@@ -272,7 +274,8 @@ def mk_positive(name, prop, LD, N, elo, ehi):
         for i in range(N):
             v["buf_%d" % i] = rngv.randint(0, 255)
         vecs.append(v)
-    return Kernel(name, args, "i32", body, mode="bv", W=48 if LD <= 8 else 150, pre=pre, claims=claims, unwind=N + LD + 8, max_paths=60000,
+    return Kernel(name, args, "i32", body, mode="int" if prop == "C14" else "bv", alt_modes=("bv",) if prop == "C14" else (),
+                  W=(48 if LD <= 8 else 150) + 4 * N, pre=pre, claims=claims, unwind=N + LD + 8, max_paths=60000,
                   vectors=lambda rng: vecs, timeout=60, desc="to_chars_positive(digits<=%d, 10^e e in [%d,%d], buffer 0..%d)" % (LD, elo, ehi, N),
                   tags={"family": "positive", "LD": LD})
 
